@@ -23,6 +23,8 @@ ALPHABETS = {
     "Atiny": [-1e-6, 0.0, 1e-6],
     "Anegbig": [-1e6, 0.0, 3.0],
     "Anear": [1.0, 1.0 + 1e-10, 1.0 - 1e-10],
+    "Abig7": [0.0, 2e6, 1e7],
+    "Aoffs": [5e7, 5e7 + 150.0, 5e7 - 120.0],      # differences far below 1e-5 of the magnitude
 }
 
 # (kind, value): how a deviation replaces the default answer
@@ -160,14 +162,14 @@ def standard_plan(ctx, visitor, depths_quick=(8, 7, 6, 5, 5), depths_thorough=(1
         tasks += list(tree_tasks(dict(N=N, r=3.5, box=boxes[0], itersLimit=2), "A01", d + 2, visitor, split=2, batch=2))
         # a Problem that declares constraints (only its objective is evaluated by this solver), and read-only queries of
         # solver.evolvent (inverse images of an arbitrary box point) between the calls
-        tasks += list(tree_tasks(dict(N=N, r=2.0, box=boxes[0], constraints=2), "A013", d, visitor, split=2))
+        tasks += list(tree_tasks(dict(N=N, r=2.0, box=boxes[0], constraints=2, discrete=1 if N > 1 else 0), "A013", d, visitor, split=2))
         if N >= 2:
             tasks += list(tree_tasks(dict(N=N, r=2.0, box="B1", probe=True), "A013", d, visitor, split=2))
             tasks += list(tree_tasks(dict(N=N, r=2.0, box="B1", startPoint=True), "A013", d - 1, visitor, split=2))
     # value domains and values of r that the grids above do not contain (powers of two, a large one, one just above 1)
     for N in (((1, 2, 3) if th else (1, 2)) if extras else ()):
         d = depths[N - 1] - 1
-        for a in ("Aneg", "Atiny", "Anegbig", "Anear"):
+        for a in ("Aneg", "Atiny", "Anegbig", "Anear", "Abig7", "Aoffs"):
             tasks += list(tree_tasks(dict(N=N, r=2.0, box=boxes[0]), a, d, visitor, split=2))
         for r in (4.0, 16.0, 12.5, 1.01):
             tasks += list(tree_tasks(dict(N=N, r=r, box=boxes[0]), "Am201", d - 1, visitor, split=2))
